@@ -482,6 +482,88 @@ def run_queue_cases(chk, target, cases, tag, T=2, ticks=None):
     return summary
 
 
+def rt_select(cases, rng, cap):
+    """Sequences for the real-time run on a real QueuePacketConn with its real
+    sweeper: only W/O/D/A/S, at least one Advance, every run of Advances is
+    followed at once by a Sweep (so the model sweeps where the real sweeper
+    does), and some client is touched on both sides of an Advance.  Those in
+    which one address is written twice across an Advance with no write to
+    another address in between are always kept."""
+    must, rest = [], []
+    for c in cases:
+        ops = c["ops"]
+        names = [o["op"] for o in ops]
+        if any(n not in "WODAS" for n in names) or "A" not in names:
+            continue
+        ok = True
+        for i, n in enumerate(names):
+            if n == "A" and (i + 1 >= len(names) or names[i + 1] not in "AS"):
+                ok = False
+        if not ok or names[-1] == "A":
+            continue
+        first_a = names.index("A")
+        if not any(n in "WO" for n in names[:first_a]):
+            continue
+        same = False
+        lastw = None
+        crossed = False
+        for o in ops:
+            if o["op"] == "W":
+                if lastw == o["a"] and crossed:
+                    same = True
+                lastw, crossed = o["a"], False
+            elif o["op"] == "A":
+                crossed = True
+        (must if same else rest).append(c)
+    rng.shuffle(rest)
+    return must[:cap] + rest[:max(0, cap - len(must))], len(must)
+
+
+def queue_realtime(chk, cases, tick_ms=50):
+    """Selected Advance/Sweep sequences on the real QueuePacketConn + real
+    sweeper goroutine (timeout = 2 ticks of 50 ms).  A 'record survives' verdict
+    rests on a real-time deadline and is confirmed by a second run with doubled
+    allowance; every other verdict is a safety observation."""
+    sel, nmust = rt_select(cases, random.Random(chk.seed + 4242), 400 if chk.tier == "quick" else 800)
+    if len(sel) < 50:
+        chk.fail("vacuous: only %d sequences selected for the real-time QueuePacketConn run" % len(sel))
+        return
+    d = vlib.scratch("queue-rt")
+    pending = sel
+    for attempt, allow in ((1, 2), (2, 4)):
+        inp, outp = os.path.join(d, "rt%d.in.ndjson" % attempt), os.path.join(d, "rt%d.out.ndjson" % attempt)
+        vlib.write_ndjson(inp, pending)
+        r = vlib.go_test_inpkg("common/turbotunnel", [INPKG], "TestVerifQueueRT$", timeout=300,
+                               env={"VERIF_IN": inp, "VERIF_OUT": outp, "VERIF_T": "2", "VERIF_RT_TICK_MS": str(tick_ms),
+                                    "VERIF_RT_ALLOW": str(allow), "VERIF_SEED": str(chk.seed)})
+        if r.rc != 0 or r.timed_out or not os.path.exists(outp):
+            raise vlib.Inconclusive("real-time queue harness failed:\n%s" % r.out[-3000:])
+        summary, confirm, reported = None, [], 0
+        for res in vlib.read_ndjson(outp):
+            if "summary" in res:
+                summary = res["summary"]
+            elif res["sig"].startswith("harness/"):
+                raise vlib.Inconclusive("real-time queue harness: %s" % res)
+            elif res["sig"].endswith("record-survives") and attempt == 1:
+                confirm.append(res["case"])
+            elif reported < 6:
+                if chk.violation("C17/" + res["sig"], res["detail"], {"mode": "queue_rt", "case": res.get("case")}):
+                    reported += 1
+        if summary is None:
+            raise vlib.Inconclusive("real-time queue harness wrote no summary")
+        if attempt == 1:
+            chk.cov["evaluations"] += summary["runs"]
+            chk.cov["distinct_nontrivial"] += summary["cases"]
+            chk.note("QueueConn real time: %d sequences with Advance/Sweep (%d with same-address writes across an Advance) x 3 sweeper phases on the real QueuePacketConn "
+                     "(timeout %d ms, real sweeper): %d runs, %d skipped as timing-ambiguous" % (summary["cases"], nmust, 2 * tick_ms, summary["runs"], summary["skipped"]))
+            if summary["skipped"] > summary["runs"] * 4 // 5:
+                chk.fail("real-time queue run: %d of %d runs were timing-ambiguous (machine too loaded?)" % (summary["skipped"], summary["runs"]))
+        if not confirm:
+            return
+        chk.note("real-time queue run: %d 'record survives' observations, confirming with doubled allowance" % len(confirm))
+        pending = confirm
+
+
 def queue_tlc_start(chk, only):
     """Start every QueueConn TLC job in the background (pure TLC, no use of chk)."""
     q = chk.tier == "quick"
@@ -493,7 +575,7 @@ def queue_tlc_start(chk, only):
             futs[name] = ex.submit(qtlc, name, workers=(8 if name == "MC_big.cfg" else 4), timeout=1500, keep_prints=False, coverage=False)
             time.sleep(0.15)
     if only is None or "queue_replay" in only:
-        for name in ("Gen_inner_%d.cfg" % n, "Gen_inner_T1_%d.cfg" % n, "Gen_conn_%d.cfg" % n, "Gen_fullsend.cfg", "Gen_fullrecv.cfg"):
+        for name in ("Gen_inner_%d.cfg" % n, "Gen_inner_T1_%d.cfg" % n, "Gen_all_%d.cfg" % n, "Gen_fullsend.cfg", "Gen_fullrecv.cfg"):
             futs[name] = ex.submit(qtlc, name, workers=1, timeout=1500)
             time.sleep(0.15)
     ex.shutdown(wait=False)
@@ -513,20 +595,23 @@ def queue_part(chk, args, only, futs):
         elif r.error:
             raise vlib.Inconclusive("QueueConn case generation %s failed: %s" % (name, r.error))
     if only is None or "queue_replay" in only:
-        for name, target in (("Gen_inner_%d.cfg" % n, "inner"), ("Gen_inner_T1_%d.cfg" % n, "inner"), ("Gen_conn_%d.cfg" % n, "conn"),
+        for name, target in (("Gen_inner_%d.cfg" % n, "inner"), ("Gen_inner_T1_%d.cfg" % n, "inner"), ("Gen_all_%d.cfg" % n, "conn"),
                              ("Gen_fullsend.cfg", "conn"), ("Gen_fullrecv.cfg", "conn")):
             cases = res[name].prints
             floor = 1 if "full" in name else 1000
             if len(cases) < floor:
                 chk.fail("vacuous: %s produced %d cases" % (name, len(cases)))
                 continue
-            ticks = tick_scales(chk) if target == "inner" else None
+            ticks = tick_scales(chk) if target == "inner" else (([37 * 10**6, 10**9] if q else [37 * 10**6, 10**9, 3600 * 10**9]) if name.startswith("Gen_all") else None)
             s = run_queue_cases(chk, target, cases, name[:-4], T=(1 if "_T1_" in name else 2), ticks=ticks)
             chk.note("QueueConn %s: %d operation sequences (%d steps) replayed on the real %s" % (
                 name, s["cases"], s["steps"], ("clientMapInner (explicit clock, timeout %d ticks, one tick = %s ns: %d runs)" % (
-                    1 if "_T1_" in name else 2, "/".join(str(t) for t in ticks), s.get("runs", 0))) if target == "inner" else "QueuePacketConn"))
+                    1 if "_T1_" in name else 2, "/".join(str(t) for t in ticks), s.get("runs", 0))) if target == "inner" else
+                ("QueuePacketConn" + (" (Advance = every record made one tick older; one tick = %s ns: %d runs)" % ("/".join(str(t) for t in ticks), s.get("runs", 0)) if ticks else ""))))
             if "full" not in name:
                 chk.sample({"queue_case": cases[len(cases) // 2]})
+            if name.startswith("Gen_all"):
+                queue_realtime(chk, cases)
     if only is None or "sweeper" in only:
         sweeper(chk)
 
@@ -608,11 +693,27 @@ def run(chk, args):
     ]
 
 
+def queue_realtime_replay(chk, case):
+    d = vlib.scratch("queue-rt")
+    inp, outp = os.path.join(d, "rp.in.ndjson"), os.path.join(d, "rp.out.ndjson")
+    vlib.write_ndjson(inp, [case] * 5)
+    r = vlib.go_test_inpkg("common/turbotunnel", [INPKG], "TestVerifQueueRT$", timeout=300,
+                           env={"VERIF_IN": inp, "VERIF_OUT": outp, "VERIF_T": "2", "VERIF_RT_TICK_MS": "50", "VERIF_RT_ALLOW": "4", "VERIF_SEED": str(chk.seed)})
+    if r.rc != 0 or r.timed_out or not os.path.exists(outp):
+        raise vlib.Inconclusive("real-time queue harness failed:\n%s" % r.out[-3000:])
+    for res in vlib.read_ndjson(outp):
+        if "summary" not in res:
+            chk.violation("C17/" + res["sig"], res["detail"], {"mode": "queue_rt", "case": res.get("case")})
+    chk.cov["evaluations"] += 15
+
+
 def replay(chk, path):
     with open(path) as fh:
         rp = json.load(fh)["replay"]
-    if rp.get("mode") == "queue":
-        s = run_queue_cases(chk, rp["target"], [rp["case"]], "replay", T=rp.get("T", 2), ticks=(TICK_ALWAYS + TICK_POOL if rp["target"] == "inner" else None))
+    if rp.get("mode") == "queue_rt":
+        queue_realtime_replay(chk, rp["case"])
+    elif rp.get("mode") == "queue":
+        s = run_queue_cases(chk, rp["target"], [rp["case"]], "replay", T=rp.get("T", 2), ticks=TICK_ALWAYS + TICK_POOL)
         chk.note("replayed 1 queue case: %s" % s)
     elif rp.get("mode") == "sweeper":
         sweeper(chk)
